@@ -15,7 +15,11 @@ import (
 // finite set, every partition of a stated family is fed to a fresh Decoder and
 // compared with the single-Write run under the same configuration: emitted
 // fields, success/failure of the block (any Write or Close error), dynamic
-// table afterwards, and nothing left in saveBuf after Close. The reference
+// table afterwards (white-box, and as seen through a follow-up block that
+// references every dynamic index), and nothing left in saveBuf after Close.
+// Configurations include the emit modes (enabled, disabled, disabled by the
+// callback): a Decoder with emitting disabled must maintain its table
+// identically. The reference
 // decoder of c02_ref_test.go only classifies the blocks (vacuity accounting).
 
 type c03Case struct {
@@ -103,19 +107,146 @@ func c03EncoderBlocks() []c03Case {
 	return out
 }
 
-func c03Configs(quick bool) []c02Cfg {
+// c03Cfg is a decoder configuration of C03: a c02Cfg plus how emitting is
+// configured while the block under test is fed.
+type c03Cfg struct {
+	c02Cfg
+	// Emit: "on" (default of NewDecoder); "off" = SetEmitEnabled(false) before
+	// the block; "off-after-1" = the emit callback calls SetEmitEnabled(false)
+	// when it receives the first field of the block (what the HTTP/2 server and
+	// Transport do once MAX_HEADER_LIST_SIZE is exceeded).
+	Emit string
+}
+
+func (g c03Cfg) String() string { return g.c02Cfg.String() + " emit=" + g.Emit }
+
+func c03Configs(quick bool) []c03Cfg {
 	if quick {
-		return []c02Cfg{{4096, 0, 0}, {4096, 2, 0}, {40, 2, 0}, {4096, 2, 2}}
+		return []c03Cfg{
+			{c02Cfg{4096, 0, 0}, "on"}, {c02Cfg{4096, 2, 0}, "on"}, {c02Cfg{40, 2, 0}, "on"}, {c02Cfg{4096, 2, 2}, "on"},
+			{c02Cfg{4096, 2, 0}, "off"}, {c02Cfg{40, 2, 0}, "off"}, {c02Cfg{4096, 2, 2}, "off"},
+			{c02Cfg{4096, 2, 0}, "off-after-1"},
+		}
 	}
-	var out []c02Cfg
+	var out []c03Cfg
 	for _, ms := range []int{0, 2, 6} {
 		for _, tab := range []uint32{4096, 40} {
 			for _, pre := range []int{0, 2} {
-				out = append(out, c02Cfg{tab, pre, ms})
+				out = append(out, c03Cfg{c02Cfg{tab, pre, ms}, "on"})
+				if ms != 6 && (pre == 2 || ms == 0) {
+					out = append(out, c03Cfg{c02Cfg{tab, pre, ms}, "off"})
+				}
+				if pre == 2 && (ms == 0 || tab == 4096) {
+					out = append(out, c03Cfg{c02Cfg{tab, pre, ms}, "off-after-1"})
+				}
 			}
 		}
 	}
-	return append(out, c02Cfg{4096, 1, 0}, c02Cfg{0, 2, 0})
+	return append(out, c03Cfg{c02Cfg{4096, 1, 0}, "on"}, c03Cfg{c02Cfg{0, 2, 0}, "on"}, c03Cfg{c02Cfg{0, 2, 0}, "off"})
+}
+
+// c03Fragments is the fragment alphabet of C03: C02's, plus literals whose
+// string CONTENT is itself a well-formed sequence of representations that
+// would change the table (so a decoder that resumes inside a string after a
+// split goes wrong silently rather than with an error).
+func c03Fragments(wide bool) []c02Frag {
+	fr := c02Fragments(wide)
+	// value = 01 'z' 40 00 00; read from the value's length octet the bytes
+	// 05 01 7a 40 00 00 are "literal name=idx5 value=z, literal+indexing ''=''",
+	// read from the value's first octet "literal name=idx1 value=z, literal+indexing ''=''"
+	fr = append(fr, c02Frag{"lit v=<reprs>", c02Cat([]byte{0x00}, c02EncStr("v", false), c02EncStr("\x01z\x40\x00\x00", false))})
+	if wide {
+		// the same in the name of an incrementally indexed literal
+		fr = append(fr, c02Frag{"lit+idx <reprs>=w", c02Cat([]byte{0x40}, c02EncStr("\x01z\x40\x00\x00", false), c02EncStr("w", false))})
+	}
+	return fr
+}
+
+// c03ImplRun is c02ImplRun for one block under a c03Cfg, plus what the same
+// Decoder emitted for a follow-up block.
+type c03ImplRun struct {
+	*c02ImplRun
+	// Follow-up (only when the block under test succeeded): after Close,
+	// emitting is re-enabled, the emit function is replaced, and one more
+	// header block consisting of an indexed field for every dynamic table
+	// entry the Decoder has (at most 8: indexes 62, 63, ...) is fed in a
+	// single Write and closed. FollowN is the number of indexes referenced.
+	FollowN      int
+	FollowFields []c02RefField
+	FollowErr    error
+}
+
+// c03RunImpl builds a fresh Decoder under cfg (preload blocks fed through the
+// emit function given to NewDecoder, then SetEmitFunc to the recording one,
+// SetMaxStringLength, emit mode), feeds chunks as one header block (one Write
+// per chunk, then Close; see c02ImplRun.feed) and, if that succeeded, the
+// follow-up block. Table, Size, MaxSize are the white-box table state after
+// the block under test, before the follow-up.
+func c03RunImpl(cfg c03Cfg, chunks [][]byte) *c03ImplRun {
+	r := &c02ImplRun{cfg: cfg.c02Cfg}
+	out := &c03ImplRun{c02ImplRun: r}
+	d := NewDecoder(cfg.Tab, func(HeaderField) {})
+	r.d = d
+	for i := 0; i < cfg.Pre; i++ {
+		if _, err := d.Write(c02Exact(c02Preload[i])); err != nil {
+			panic(fmt.Sprintf("harness: preload block %d rejected: %v", i, err))
+		}
+		if err := d.Close(); err != nil {
+			panic(fmt.Sprintf("harness: preload block %d rejected at Close: %v", i, err))
+		}
+	}
+	d.SetMaxStringLength(cfg.MaxStr)
+	r.sink = &r.Fields
+	switch cfg.Emit {
+	case "on":
+		d.SetEmitFunc(r.emit)
+	case "off":
+		d.SetEmitFunc(r.emit)
+		d.SetEmitEnabled(false)
+	case "off-after-1":
+		d.SetEmitFunc(func(f HeaderField) {
+			r.emit(f)
+			d.SetEmitEnabled(false)
+		})
+	default:
+		panic("harness: unknown emit mode " + cfg.Emit)
+	}
+	r.inv("after preload")
+	err, at, _ := r.feed(chunks, false)
+	if err != nil {
+		r.Err, r.ErrAt = err, at
+		r.finish()
+		return out
+	}
+	r.Blocks++
+	if cfg.Emit == "off" && len(r.Fields) > 0 {
+		r.bad("emits-while-disabled", "emitted %s with SetEmitEnabled(false)", c02FieldList(r.Fields))
+	}
+	if cfg.Emit == "off-after-1" && len(r.Fields) > 1 {
+		r.bad("emits-while-disabled", "emitted %s although the callback disabled emitting at the first field", c02FieldList(r.Fields))
+	}
+	saveLen := r.SaveLen
+	r.finish() // snapshots the table; clears r.d
+	r.d = d
+	out.FollowN = min(len(d.dynTab.table.ents), 8)
+	if out.FollowN > 0 {
+		d.SetEmitEnabled(true)
+		d.SetEmitFunc(func(f HeaderField) {
+			out.FollowFields = append(out.FollowFields, c02RefField{f.Name, f.Value, f.Sensitive})
+		})
+		fb := make([]byte, out.FollowN)
+		for i := range fb {
+			fb[i] = 0x80 | byte(62+i)
+		}
+		_, out.FollowErr = d.Write(c02Exact(fb))
+		r.inv("after the follow-up Write")
+		if cerr := d.Close(); out.FollowErr == nil {
+			out.FollowErr = cerr
+		}
+	}
+	r.SaveLen = saveLen
+	r.d = nil
+	return out
 }
 
 func TestVerif_C03(t *testing.T) {
@@ -125,7 +256,7 @@ func TestVerif_C03(t *testing.T) {
 		max3 := vx.Pick(c, 12, 20)
 		byteL := vx.Pick(c, 4, 5)
 		c.Rule(fmt.Sprintf("blocks: (A) every sequence of 1..3 fragments of the %d-element fragment alphabet (thorough: the %d-element wide alphabet, plus every 4-sequence over the first 12 fragments), each also with its last fragment cut at every byte (truncated blocks); (C) the real Encoder's output for every 2-operation history over 17 operations, each also with every one of its first 24 bytes xor 01 / xor 80 / set to ff and every truncation to < 24 bytes; (B) every byte string of length 1..%d over {00,01,0f,3f,40,7f,80,82,be,ff}. "+
-			"partitions of each block: every 2-partition including an empty chunk, every 3-partition into non-empty chunks for blocks of <= %d bytes, and one byte per Write; under each of %d decoder configurations (initial/allowed table size, 0-2 preloaded entries, max string length). Each partition is compared with the single-Write run. non-trivial = block whose single-Write run emitted a field or changed the table or was retained in saveBuf by some partition", len(c02Fragments(false)), len(c02Fragments(true)), byteL, max3, len(cfgs)))
+			"partitions of each block: every 2-partition including an empty chunk, every 3-partition into non-empty chunks for blocks of <= %d bytes, and one byte per Write; under each of %d decoder configurations (initial/allowed table size, 0-2 preloaded entries, max string length set/unset, emitting on / SetEmitEnabled(false) before the block / disabled by the emit callback at the first field of the block; the emit function is replaced with SetEmitFunc after the preload and again before the follow-up). Each partition is compared with the single-Write run of the same configuration: block success/failure, emitted fields, white-box dynamic table (entries, size, maxSize), and - when the block succeeded - the outcome and fields of a follow-up block, fed in one Write with emitting re-enabled, that references every dynamic index the Decoder then has (at most 8); saveBuf empty after Close. The fragment alphabet is that of C02 plus literals whose string content is itself a table-changing representation sequence. non-trivial = block whose single-Write run emitted a field or changed the table or was retained in saveBuf by some partition", len(c03Fragments(false)), len(c03Fragments(true)), byteL, max3, len(cfgs)))
 		c.Assume("after the first error of a block the decoder is not used again (callers must tear the connection down); the success/failure of a block is compared, not which error value is returned")
 		c.Assume("purely differential: a defect that misbehaves identically for every partition is invisible here by construction")
 
@@ -137,7 +268,7 @@ func TestVerif_C03(t *testing.T) {
 			defer func() { runs.Add(nruns) }()
 			anyResumed, anyEffect := false, false
 			for _, cfg := range cfgs {
-				base := c02RunImpl(cfg, [][][]byte{{blk}})
+				base := c03RunImpl(cfg, [][]byte{blk})
 				nruns++
 				if base.BadSig != "" {
 					w.Failf("C03/single-write/"+base.BadSig, "%s; block %s (%s) %v", base.Bad, x.Block, x.Desc, cfg)
@@ -147,14 +278,14 @@ func TestVerif_C03(t *testing.T) {
 					w.Failf("C03/savebuf-not-empty-after-close/single", "block %s (%s) %v: %d bytes left in saveBuf after a successful Close", x.Block, x.Desc, cfg, base.SaveLen)
 					return
 				}
-				ref := c02RunRef(cfg, [][]byte{blk})
+				ref := c02RunRef(cfg.c02Cfg, [][]byte{blk})
 				if len(base.Fields) > 0 || ref.Reprs > 0 {
 					anyEffect = true
 				}
 				w.Outcome("single=" + c02ErrClass(base.Err) + " ref=" + ref.Status)
 				stop := false
 				c03Partitions(blk, max3, func(kind string, chunks [][]byte) bool {
-					sp := c02RunImpl(cfg, [][][]byte{chunks})
+					sp := c03RunImpl(cfg, chunks)
 					nruns++
 					if sp.Resumed {
 						anyResumed = true
@@ -172,6 +303,8 @@ func TestVerif_C03(t *testing.T) {
 						w.Failf("C03/emitted-differs/"+trig, "block %s (%s) %v: single Write emits %s; chunks %s emit %s", x.Block, x.Desc, cfg, c02FieldList(base.Fields), c02Chunks(chunks), c02FieldList(sp.Fields))
 					case !c02FieldsEqual(base.Table, sp.Table) || base.Size != sp.Size || base.MaxSize != sp.MaxSize:
 						w.Failf("C03/table-differs/"+trig, "block %s (%s) %v: single Write leaves table %s size=%d max=%d; chunks %s leave %s size=%d max=%d", x.Block, x.Desc, cfg, c02FieldList(base.Table), base.Size, base.MaxSize, c02Chunks(chunks), c02FieldList(sp.Table), sp.Size, sp.MaxSize)
+					case base.FollowN != sp.FollowN || (base.FollowErr == nil) != (sp.FollowErr == nil) || !c02FieldsEqual(base.FollowFields, sp.FollowFields):
+						w.Failf("C03/follow-up-block-differs/"+trig, "block %s (%s) %v: after a single Write a follow-up block referencing dynamic indexes 62..%d emits %s err=%v; after chunks %s the follow-up referencing 62..%d emits %s err=%v", x.Block, x.Desc, cfg, 61+base.FollowN, c02FieldList(base.FollowFields), base.FollowErr, c02Chunks(chunks), 61+sp.FollowN, c02FieldList(sp.FollowFields), sp.FollowErr)
 					case sp.ErrAt != "write" && sp.SaveLen != 0:
 						w.Failf("C03/savebuf-not-empty-after-close/split", "chunks %s (%s) %v: %d bytes left in saveBuf after Close (err=%v)", c02Chunks(chunks), x.Desc, cfg, sp.SaveLen, sp.Err)
 					default:
@@ -221,13 +354,13 @@ func TestVerif_C03(t *testing.T) {
 		}
 		vx.Enumerate(c, "fragments", vx.Opts{}, func(yield func(c03Case) bool) {
 			if quick {
-				genFrags(c02Fragments(false), 3, yield)
+				genFrags(c03Fragments(false), 3, yield)
 				return
 			}
-			if !genFrags(c02Fragments(true), 3, yield) {
+			if !genFrags(c03Fragments(true), 3, yield) {
 				return
 			}
-			vx.Strings(c02Fragments(false)[:12], 4, 4, func(seq []c02Frag) bool { return genFragSeq(seq, yield) })
+			vx.Strings(c03Fragments(false)[:12], 4, 4, func(seq []c02Frag) bool { return genFragSeq(seq, yield) })
 		}, check)
 
 		// (C) encoder output, intact and damaged
